@@ -253,3 +253,15 @@ Fixpoint dep_toks (d : dep) : list bytes :=
 
 (* dependency strings are split at white space (space, \t \n \v \f \r) *)
 Definition ptokens (s : bytes) : list bytes := fields s.
+
+(* ---- the two known deviations of the dependency decoder, as classes of inputs ---- *)
+(* a USE-conditional token "flag?" / "!flag?" directly followed by something other than "(" *)
+Definition is_use_tok (t : bytes) : bool :=
+  match get_token t with TUse _ _ _ => true | _ => false end.
+Fixpoint bare_use (ts : list bytes) : bool :=
+  match ts with
+  | t :: ((u :: _) as r) => (is_use_tok t && negb (beq u (bs "("))) || bare_use r
+  | _ => false
+  end.
+(* bytes 0x00-0x08 and 0x0e-0x1f: not white space, yet below the space character *)
+Definition ctrl_byte (c : ascii) : bool := is_ws c && negb (is_sp c).
